@@ -350,6 +350,17 @@ func switchThreading(v *VM) *val.Val {
 				args[argc-1-i] = v.Pop()
 			}
 			f := v.Pop().Fun()
+			// 实参都是 thunk: lazy 函数直接传 thunk, 否则按声明顺序求值
+			for i := 0; i < argc; i++ {
+				body := (*thunkVal)(unsafe.Pointer(args[i])).bytecode
+				if f.Lazy {
+					args[i] = val.Fun(args[i].Type, func(...*val.Val) *val.Val {
+						return v.call0(body, v.env)
+					})
+				} else {
+					args[i] = v.call0(body, v.env)
+				}
+			}
 			v.Push(f.Call(args...))
 
 		case OP_RETURN:
